@@ -6,6 +6,7 @@ CONSTANTS
   OptLen = 3
   MaxCodons = 2
   PairCodons = 1
+  LongLens = {}
   SymLen = 2
 INVARIANT TypeOK
 INVARIANT RcInvolution
@@ -15,4 +16,5 @@ INVARIANT EncodeResolveInverse
 INVARIANT SixFrameLaw
 INVARIANT AnticodonFrameLaw
 INVARIANT StopLaws
+INVARIANT LongLaw
 INVARIANT CodonLaw
